@@ -67,7 +67,7 @@ def run(tier: str, seed: int) -> int:
         with dask.config.set(scheduler="synchronous"):
             counts = [1, 3, 11, 16] if quick else [1, 2, 3, 7, 11, 12, 16]
             dsno = 0
-            for writer in ("to_parquet", "pack"):
+            for writer in ("to_parquet", "pack", "to_parquet_filtered"):
                 for nparts in counts:
                     for rep in range(1 if quick else 3):
                         dsno += 1
@@ -79,6 +79,14 @@ def run(tier: str, seed: int) -> int:
                         ddf = dd.from_pandas(df.set_geometry(active), npartitions=min(nparts, n))
                         try:
                             if writer == "to_parquet":
+                                ddf.to_parquet(path)
+                            elif writer == "to_parquet_filtered":
+                                # history: the frame's partition bounds are cached (index touched, cx used), THEN rows on the partitions'
+                                # extents are filtered away, and the selection is written: the recorded bounds must be those of the stored rows
+                                ddf.partition_sindex  # noqa: B018
+                                _ = ddf.cx[0:1, 0:1]
+                                drop = [int(i) for i in df["id"] if int(i) % 3 == 1]
+                                ddf = ddf[~ddf["id"].isin(drop)]
                                 ddf.to_parquet(path)
                             else:
                                 ddf.pack_partitions_to_parquet(path, npartitions=nparts, p=8)
